@@ -61,7 +61,7 @@ fn unseal_probe<B: Backend>(kp: &KeyPair<B>, token: &str, aad: &[u8]) -> Result<
     }
 }
 
-fn probe_case<B: Backend>(rep: &mut Report, kp: &KeyPair<B>, class: &str, token: &str, aad: &[u8]) {
+fn probe_case<B: Backend>(rep: &mut Report, kp: &KeyPair<B>, class: &str, token: &str, aad: &[u8]) -> Option<&'static str> {
     let p = kp.purpose();
     let label = format!("{}.{}.{class}", B::NAME, p.name());
     let mut kinds = vec![];
@@ -100,6 +100,18 @@ fn probe_case<B: Backend>(rep: &mut Report, kp: &KeyPair<B>, class: &str, token:
     }
     rep.case(&label, fnv_parts(&[token.as_bytes(), aad, &kp.raw().1]), true);
     rep.sample_class(&label, 1, || json!({"backend": B::NAME, "purpose": p.name(), "class": class, "token": token.chars().take(200).collect::<String>(), "events": [], "error": kinds.first()}));
+    kinds.first().copied()
+}
+
+/// a payload of exactly `len` bytes that is valid UTF-8 and, when long enough, a JSON object
+fn jsonish(len: usize) -> Vec<u8> {
+    match len {
+        0 => vec![],
+        1 => b"1".to_vec(),
+        2 => b"{}".to_vec(),
+        _ if len < 8 => format!("{:>w$}", "{}", w = len).into_bytes(),
+        _ => format!("{{\"k\":\"{}\"}}", "x".repeat(len - 8)).into_bytes(),
+    }
 }
 
 fn backend<B: Backend>(opts: &Opts, rep: &mut Report) {
@@ -140,7 +152,11 @@ fn backend<B: Backend>(opts: &Opts, rep: &mut Report) {
                     }
                 }
                 DECODE_OK.with(|d| d.set(true));
-                for m in mutants::<B>(p, &tok, len, aad, opts.thorough()) {
+                // a second token of identical shape whose payload is well-formed UTF-8 / JSON: the same
+                // corruption must produce the same error kind whatever the unauthenticated bytes look like
+                let twin = kp.seal(&jsonish(len), footer, aad).ok();
+                let twin_mutants = twin.as_ref().map(|t| mutants::<B>(p, t, len, aad, opts.thorough())).unwrap_or_default();
+                for (j, m) in mutants::<B>(p, &tok, len, aad, opts.thorough()).into_iter().enumerate() {
                     idx += 1;
                     if !opts.mine(idx) {
                         continue;
@@ -148,7 +164,24 @@ fn backend<B: Backend>(opts: &Opts, rep: &mut Report) {
                     if m.token == tok && m.aad == aad {
                         continue;
                     }
-                    probe_case::<B>(rep, &kp, m.class, &m.token, &m.aad);
+                    let k1 = probe_case::<B>(rep, &kp, m.class, &m.token, &m.aad);
+                    if let (Some(tm), Some(k1)) = (twin_mutants.get(j), k1) {
+                        if tm.class == m.class {
+                            DECODE_OK.with(|d| d.set(true));
+                            take_events();
+                            let r2 = guard(|| unseal_probe::<B>(&kp, &tm.token, &tm.aad));
+                            take_events();
+                            if let Ok(Err(e2)) = r2 {
+                                if err_kind(&e2) != k1 {
+                                    rep.violation(
+                                        &format!("C12|{}|{}|error-kind-depends-on-payload-content:{}", B::NAME, p.name(), m.class),
+                                        json!({"class": m.class, "random_payload_token": m.token, "error": k1, "json_payload_token": tm.token, "error_json": err_kind(&e2)}),
+                                    );
+                                }
+                                rep.count("payload-content-twins-compared");
+                            }
+                        }
+                    }
                 }
                 idx += 1;
                 if opts.mine(idx) {
